@@ -3,6 +3,8 @@
 //! `bytes_to_*` / `*_to_bytes` helpers, `NODE_BYTE_SIZE`.
 //! Stand-ins: none needed (no logging, no containers) except the clock stub for `Node::new`.
 use super::*;
+#[allow(unused_imports)]
+use crate::verif_env::k as kani;
 use crate::verif_env::clock;
 use serde_bytes::ByteBuf;
 
@@ -330,6 +332,98 @@ fn c10_o1a_announce_peer_encode() {
     kani::cover!(implied_port == Some(false));
     kani::cover!(implied_port == Some(true));
     kani::cover!(implied_port.is_none());
+    std::mem::forget(s);
+}
+
+//@ ob: C10.O1e
+//@ tier: quick
+//@ cap: 800
+//@ also: C05
+//@ desc: error message round trip through the wire mirror, both directions: into_serde_message writes the transaction id as exactly 4 big-endian bytes for every u32 id, ro = 1 iff read-only, the error code and the requester ip (6 compact bytes) unchanged; from_serde_message of that mirror value gives back the same transaction id, read-only flag, code and ip
+//@ bounds: symbolic u32 tid, read_only, i32 code, requester ip absent or any ip:port; empty description; unwind 8
+//@ stubs: none
+//@ functions: Message::into_serde_message (envelope + error arm), Message::from_serde_message, sockaddr_to_bytes, bytes_to_sockaddr
+#[kani::proof]
+#[kani::unwind(8)]
+fn c10_o1e_error_round_trip() {
+    let tid: u32 = kani::any();
+    let ro: bool = kani::any();
+    let code: i32 = kani::any();
+    let has_ip: bool = kani::any();
+    let ipb: [u8; 4] = kani::any();
+    let port: u16 = kani::any();
+    let ip = if has_ip { Some(SocketAddrV4::new(ipb.into(), port)) } else { None };
+    let m = Message {
+        transaction_id: tid,
+        version: None,
+        requester_ip: ip,
+        read_only: ro,
+        message_type: MessageType::Error(ErrorSpecific { code, description: String::new() }),
+    };
+    let s = m.into_serde_message();
+    assert!(s.transaction_id.len() == 4, "C10 transaction id encoded as 4 big-endian bytes");
+    assert!(s.transaction_id[0] == (tid >> 24) as u8 && s.transaction_id[1] == (tid >> 16) as u8 && s.transaction_id[2] == (tid >> 8) as u8 && s.transaction_id[3] == tid as u8, "C10 transaction id encoded as 4 big-endian bytes");
+    assert!(s.read_only == Some(if ro { 1 } else { 0 }), "C10 ro is 1 iff read-only");
+    match &s.ip {
+        Some(b) => assert!(has_ip && b[0] == ipb[0] && b[3] == ipb[3] && b[4] == (port >> 8) as u8 && b[5] == port as u8, "C10 requester ip encoded as 6 compact bytes"),
+        None => assert!(!has_ip, "C10 requester ip encoded as 6 compact bytes"),
+    }
+    assert!(matches!(&s.variant, internal::DHTMessageVariant::Error(e) if e.error_info.0 == code), "C10 error code preserved");
+    let r = Message::from_serde_message(s);
+    match &r {
+        Ok(d) => {
+            assert!(d.transaction_id == tid && d.read_only == ro, "C10 decode(encode(m)) == m: transaction id and ro");
+            assert!(d.requester_ip == ip, "C10 decode(encode(m)) == m: requester ip");
+            assert!(matches!(&d.message_type, MessageType::Error(e) if e.code == code), "C10 decode(encode(m)) == m: error code");
+        }
+        Err(_) => assert!(false, "C10 every message the library builds decodes"),
+    }
+    kani::cover!(tid < 0x1_0000);
+    kani::cover!(tid >= 0x1_0000 && tid < 0x100_0000);
+    kani::cover!(has_ip && port == 0);
+    std::mem::forget(r);
+}
+
+//@ ob: C10.O1s
+//@ tier: thorough
+//@ cap: 2400
+//@ mem: 24
+//@ desc: announce_signed_peer encoding: into_serde_message keeps info_hash, k, sig and token, and the timestamp it puts into the wire mirror is an integer bencode can carry -- within the signed 64-bit range the parser reads (timestamps at or above 2^63 included: they must map into that range, not be emitted as larger integers) -- and maps back to the same u64 timestamp
+//@ bounds: symbolic tid, full u64 timestamp, read_only; concrete ids, key, signature; unwind 8
+//@ stubs: none
+//@ functions: Message::into_serde_message (announce_signed_peer arm)
+#[kani::proof]
+#[kani::unwind(8)]
+fn c10_o1s_announce_signed_peer_encode() {
+    let tid: u32 = kani::any();
+    let t: u64 = kani::any();
+    let ro: bool = kani::any();
+    let m = Message {
+        transaction_id: tid,
+        version: None,
+        requester_ip: None,
+        read_only: ro,
+        message_type: MessageType::Request(RequestSpecific {
+            requester_id: Id::from([1u8; 20]),
+            request_type: RequestTypeSpecific::Put(PutRequest {
+                token: Box::new([9, 8, 7, 6]),
+                put_request_type: PutRequestSpecific::AnnounceSignedPeer(AnnounceSignedPeerRequestArguments { info_hash: Id::from([2u8; 20]), t, k: [3; 32], sig: [4; 64] }),
+            }),
+        }),
+    };
+    let s = m.into_serde_message();
+    assert!(s.transaction_id.len() == 4 && s.transaction_id[0] == (tid >> 24) as u8 && s.transaction_id[3] == tid as u8, "C10 transaction id encoded as 4 big-endian bytes");
+    match &s.variant {
+        internal::DHTMessageVariant::Request(internal::DHTRequestSpecific::AnnounceSignedPeer { arguments }) => {
+            assert!(arguments.info_hash == [2u8; 20] && arguments.k[0] == 3 && arguments.k[31] == 3 && arguments.sig[0] == 4 && arguments.sig[63] == 4 && &*arguments.token == &[9, 8, 7, 6], "C10 announce_signed_peer fields preserved");
+            let wire = arguments.t as i128;
+            assert!(wire >= i64::MIN as i128 && wire <= i64::MAX as i128, "C10 integers on the wire stay within bencode's signed 64-bit range");
+            assert!(arguments.t as u64 == t, "C10 timestamp survives encoding");
+        }
+        _ => assert!(false, "C10 announce_signed_peer encodes as announce_signed_peer"),
+    }
+    kani::cover!(t >= 1u64 << 63);
+    kani::cover!(t < 1u64 << 63);
     std::mem::forget(s);
 }
 
